@@ -24,6 +24,7 @@ import (
 	"sync"
 	"sync/atomic"
 	"testing"
+	"time"
 
 	"github.com/safing/portbase/api"
 	"github.com/safing/portbase/config"
@@ -58,6 +59,7 @@ func TestMain(m *testing.M) {
 func run(m *testing.M) int {
 	authMode = os.Getenv("VERIF_C12_MODE") != "noauth"
 
+	removeStaleRoots("verif-c12-")
 	root, err := os.MkdirTemp("/dev/shm", "verif-c12-")
 	if err != nil {
 		fmt.Fprintf(os.Stderr, "c12: no scratch dir: %s\n", err)
@@ -102,6 +104,23 @@ func run(m *testing.M) int {
 	stats.Flush(code)
 	// modules.Shutdown is deliberately not called (see harness README / DESIGN 2).
 	return code
+}
+
+// removeStaleRoots deletes data roots of earlier test processes that were
+// killed (fuzz workers are) and could not remove theirs: older than an hour.
+func removeStaleRoots(prefix string) {
+	entries, err := os.ReadDir("/dev/shm")
+	if err != nil {
+		return
+	}
+	for _, e := range entries {
+		if !e.IsDir() || !strings.HasPrefix(e.Name(), prefix) {
+			continue
+		}
+		if info, err := e.Info(); err == nil && time.Since(info.ModTime()) > time.Hour {
+			_ = os.RemoveAll("/dev/shm/" + e.Name())
+		}
+	}
 }
 
 func freeLoopbackAddr() string {
